@@ -1,8 +1,7 @@
 (* Lemmas and proofs about Model/Emissions.v *)
 From Kava Require Import Base.Prelude Base.Dec Model.Emissions.
+From Kava Require Export Proofs.EmissionsInfra.
 Local Open Scope Z_scope.
-
-Lemma NS_pos : 0 < NS. Proof. reflexivity. Qed.
 
 (** * calculateStakingRewards in closed form *)
 
@@ -65,7 +64,7 @@ Qed.
 
 Definition Inv (s : state) : Prop :=
   0 <= sr_err s < PREC /\ 0 <= c_rate s /\ 0 <= c_upg_rate s /\ 0 <= pool s /\
-  0 <= sr_last s /\ 0 <= c_upg s /\ 0 <= kd_prev s /\ (sr_last s = 0 -> sr_err s = 0).
+  0 <= sr_last s /\ 0 <= c_upg s /\ 0 <= kd_prev s /\ (sr_last s = 0 -> sr_err s = 0) /\ 0 <= kdbal s.
 
 (* the invariant together with "the stored times are not after the clock" *)
 Definition InvT (now : Z) (s : state) : Prop :=
@@ -78,7 +77,7 @@ Proof.
   destruct (Z.leb_spec 0 (c_rate s)); destruct (Z.leb_spec 0 (c_upg_rate s));
   destruct (Z.leb_spec 0 (pool s)); destruct (Z.leb_spec 0 (sr_last s));
   destruct (Z.leb_spec 0 (c_upg s)); destruct (Z.leb_spec 0 (kd_prev s));
-  destruct (Z.eqb_spec (sr_last s) 0); destruct (Z.eqb_spec (sr_err s) 0);
+  destruct (Z.eqb_spec (sr_last s) 0); destruct (Z.eqb_spec (sr_err s) 0); destruct (Z.leb_spec 0 (kdbal s));
   cbn; split; intros HH; try discriminate; try reflexivity; try lia.
 Qed.
 
@@ -133,6 +132,113 @@ Proof.
       reflexivity.
 Qed.
 
+Lemma kd_mint_some infl secs sup a : kd_mint infl secs sup = Some a ->
+  0 <= secs /\ a = kd_amount infl secs sup /\ 0 <= a.
+Proof.
+  unfold kd_mint. destruct (Z.ltb_spec infl 0) as [L1|L1]; cbn [orb]; [discriminate|].
+  destruct (Z.ltb_spec secs 0) as [L2|L2]; [discriminate|].
+  destruct (Z.ltb_spec (kd_amount infl secs sup) 0) as [L3|L3]; [discriminate|].
+  intros HS; inversion HS; subst. repeat split; lia.
+Qed.
+
+(* the coins minted for a list of windows are the growth of the supply *)
+Lemma minted_cons w ws : minted (w :: ws) = w_amt w + minted ws.
+Proof. reflexivity. Qed.
+
+Lemma mint_periods_minted now : forall ps i prev sup sup' ws,
+  mint_periods now ps i prev sup = Some (sup', ws) ->
+  minted ws = sup' - sup /\ Forall (fun w => 0 <= w_amt w) ws.
+Proof.
+  induction ps as [|p r IH]; intros i prev sup sup' ws HM; cbn [mint_periods] in HM.
+  - inversion HM; subst. split; [unfold minted; cbn; lia|constructor].
+  - destruct (p_end p <? prev); [eapply IH; eassumption|].
+    destruct (kd_case2 now prev p).
+    + destruct (kd_mint (p_infl p) (unix (p_end p) - unix (Z.max prev (p_start p))) sup) as [a|] eqn:KM; [|discriminate].
+      destruct (mint_periods now r (S i) (p_end p) (sup + a)) as [[sup2 ws2]|] eqn:R; [|discriminate].
+      inversion HM; subst; clear HM. destruct (kd_mint_some _ _ _ _ KM) as (_ & _ & K3).
+      destruct (IH _ _ _ _ _ R) as (I1 & I2). rewrite minted_cons. cbn [w_amt].
+      split; [lia|constructor; [exact K3|exact I2]].
+    + destruct (kd_case3 now prev p); [|eapply IH; eassumption].
+      destruct (kd_mint (p_infl p) (unix now - unix prev) sup) as [a|] eqn:KM; [|discriminate].
+      destruct (mint_periods now r (S i) prev (sup + a)) as [[sup2 ws2]|] eqn:R; [|discriminate].
+      inversion HM; subst; clear HM. destruct (kd_mint_some _ _ _ _ KM) as (_ & _ & K3).
+      destruct (IH _ _ _ _ _ R) as (I1 & I2). rewrite minted_cons. cbn [w_amt].
+      split; [lia|constructor; [exact K3|exact I2]].
+Qed.
+
+Lemma minted_nonneg ws : Forall (fun w => 0 <= w_amt w) ws -> 0 <= minted ws.
+Proof. induction 1 as [|w l Hw _ IH]; [unfold minted; cbn; lia|rewrite minted_cons; lia]. Qed.
+
+(* the minting stage credits the kavadist account with exactly what it mints *)
+Lemma kavadist_minted t s s' ws wsi : kavadist_bb t s = Ok s' (ws, wsi) ->
+  0 <= minted ws /\ 0 <= minted wsi /\
+  kdbal s' = kdbal s + minted ws + minted wsi /\ supply s' = supply s + minted ws + minted wsi /\
+  kd_partners s' = kd_partners s /\ kd_cores s' = kd_cores s /\ users s' = users s /\
+  ((kd_active s = false \/ kd_prev s = 0) -> wsi = []).
+Proof.
+  unfold kavadist_bb. destruct (kd_active s); cbn [negb].
+  - destruct (Z.eqb_spec (kd_prev s) 0) as [Z0|NZ].
+    + intros H; inversion H; subst. unfold minted. cbn. repeat split; lia.
+    + destruct (mint_periods t (kd_periods s) 0 (kd_prev s) (supply s)) as [[sup1 ws1]|] eqn:M1; [|discriminate].
+      destruct (mint_periods t (kd_infra s) 0 (kd_prev s) sup1) as [[sup2 ws2]|] eqn:M2; [|discriminate].
+      intros H; inversion H; subst.
+      destruct (mint_periods_minted _ _ _ _ _ _ _ M1) as (A1 & B1).
+      destruct (mint_periods_minted _ _ _ _ _ _ _ M2) as (A2 & B2).
+      pose proof (minted_nonneg _ B1). pose proof (minted_nonneg _ B2).
+      cbn. repeat split; try lia; try (intros [X|X]; [discriminate|contradiction]).
+  - intros H; inversion H; subst. unfold minted. cbn. repeat split; lia.
+Qed.
+
+Definition w_len (w : window) : Z := w_to w - w_from w.
+Definition win_secs (ws : list window) : Z := zsum (map w_len ws).
+
+Lemma win_secs_cons w ws : win_secs (w :: ws) = w_len w + win_secs ws.
+Proof. reflexivity. Qed.
+
+(* the elapsed time handed to the distribution is the total length of the
+   windows minted in this call: the time that was minted for, nothing else *)
+Lemma infra_elapsed_windows now : forall ps i prev sup sup' ws te,
+  mint_periods now ps i prev sup = Some (sup', ws) ->
+  infra_elapsed now ps prev te = te + win_secs ws.
+Proof.
+  induction ps as [|p r IH]; intros i prev sup sup' ws te HM; cbn [mint_periods infra_elapsed] in *.
+  - inversion HM; subst. unfold win_secs, zsum. cbn. lia.
+  - destruct (p_end p <? prev); [eapply IH; eassumption|].
+    destruct (kd_case2 now prev p).
+    + destruct (kd_mint (p_infl p) (unix (p_end p) - unix (Z.max prev (p_start p))) sup) as [a|]; [|discriminate].
+      destruct (mint_periods now r (S i) (p_end p) (sup + a)) as [[sup2 ws2]|] eqn:R; [|discriminate].
+      inversion HM; subst; clear HM. rewrite win_secs_cons. unfold w_len at 1. cbn [w_to w_from].
+      rewrite (IH _ _ _ _ _ _ R). lia.
+    + destruct (kd_case3 now prev p); [|eapply IH; eassumption].
+      destruct (kd_mint (p_infl p) (unix now - unix prev) sup) as [a|]; [|discriminate].
+      destruct (mint_periods now r (S i) prev (sup + a)) as [[sup2 ws2]|] eqn:R; [|discriminate].
+      inversion HM; subst; clear HM. rewrite win_secs_cons. unfold w_len at 1. cbn [w_to w_from].
+      rewrite (IH _ _ _ _ _ _ R). lia.
+Qed.
+
+(* MintPeriodInflation = minting stage, then the distribution of what the
+   infrastructure periods minted *)
+Lemma kavadist_full_inv t s s' ws wsi d : kavadist_full t s = Ok s' (ws, wsi, d) ->
+  exists s1, kavadist_bb t s = Ok s1 (ws, wsi) /\ dist_good s1 s' d /\ d_coins d = minted wsi /\
+    d_te d = win_secs wsi /\ (d_te d = 0 \/ d_te d = infra_elapsed t (kd_infra s) (kd_prev s) 0).
+Proof.
+  unfold kavadist_full. destruct (kavadist_bb t s) as [s1 [ws1 wsi1]| |] eqn:K; try discriminate.
+  destruct (negb (kd_active s) || (kd_prev s =? 0)) eqn:G.
+  - intros H; inversion H; subst. exists s'. split; [reflexivity|]. split; [apply dist_good_no_dist|].
+    destruct (kavadist_minted _ _ _ _ _ K) as (_ & _ & _ & _ & _ & _ & _ & W).
+    rewrite W; [split; [reflexivity|split; [reflexivity|left; reflexivity]]|].
+    apply orb_true_iff in G. destruct G as [G|G]; [left; destruct (kd_active s); [discriminate|reflexivity]|right; apply Z.eqb_eq; exact G].
+  - destruct (distribute (infra_elapsed t (kd_infra s) (kd_prev s) 0) (minted wsi1) s1) as [[s2 d2]|] eqn:D; [|discriminate].
+    intros H; inversion H; subst. exists s1. split; [reflexivity|].
+    destruct (distribute_facts _ _ _ _ _ D) as (E1 & E2 & GD). split; [exact GD|]. split; [exact E2|].
+    split; [|right; exact E1].
+    rewrite E1. apply orb_false_iff in G. destruct G as (G1 & G2). apply negb_false_iff in G1.
+    revert K. unfold kavadist_bb. rewrite G1, G2. cbn [negb].
+    destruct (mint_periods t (kd_periods s) 0 (kd_prev s) (supply s)) as [[sup1 ws1]|]; [|discriminate].
+    destruct (mint_periods t (kd_infra s) 0 (kd_prev s) sup1) as [[sup2 ws2]|] eqn:M2; [|discriminate].
+    intros K; inversion K; subst. rewrite (infra_elapsed_windows _ _ _ _ _ _ _ 0 M2). lia.
+Qed.
+
 (** * frame lemmas for the kavadist stage *)
 
 Lemma kavadist_frame t s s' w : kavadist_bb t s = Ok s' w ->
@@ -152,13 +258,36 @@ Proof.
   - intros H; inversion H; subst. repeat split; try reflexivity; intros; try discriminate; auto.
 Qed.
 
+Lemma kavadist_full_frame t s s' ws wsi d : kavadist_full t s = Ok s' (ws, wsi, d) ->
+  sr_last s' = sr_last s /\ sr_err s' = sr_err s /\ c_rate s' = c_rate s /\ c_upg s' = c_upg s /\
+  c_upg_rate s' = c_upg_rate s /\ pool s' = pool s + dist_to_pool d /\ sink s' = sink s /\
+  m_min s' = m_min s /\ m_max s' = m_max s /\ d_tax s' = d_tax s /\
+  kd_active s' = kd_active s /\ kd_periods s' = kd_periods s /\ kd_infra s' = kd_infra s /\
+  (kd_active s = false -> s' = s /\ ws = [] /\ wsi = [] /\ d = no_dist) /\
+  (kd_active s = true -> kd_prev s' = t).
+Proof.
+  unfold kavadist_full. destruct (kavadist_bb t s) as [s1 [ws1 wsi1]| |] eqn:K; try discriminate.
+  apply kavadist_frame in K.
+  destruct K as (K1 & K2 & K3 & K4 & K5 & K6 & K7 & K8 & K9 & K10 & K11 & K12 & K13 & K14 & K15).
+  destruct (negb (kd_active s) || (kd_prev s =? 0)) eqn:G.
+  - intros H; inversion H; subst. unfold dist_to_pool, to_pool. cbn [no_dist d_partner d_core map zsum fold_right].
+    repeat split; try assumption; try lia; destruct (K14 ltac:(assumption)) as (-> & E); inversion E; subst; auto.
+  - destruct (distribute (infra_elapsed t (kd_infra s) (kd_prev s) 0) (minted wsi1) s1) as [[s2 d2]|] eqn:D; [|discriminate].
+    intros H; inversion H; subst.
+    destruct (distribute_facts _ _ _ _ _ D) as (_ & _ & (F & _ & _ & _ & P & _)).
+    unfold frame in F. decompose [and] F. clear F.
+    apply orb_false_iff in G. destruct G as (G1 & G2). apply negb_false_iff in G1.
+    repeat split; try congruence; try lia.
+    intros A. rewrite H11. auto.
+Qed.
+
 (* decomposition of one block into its stages *)
 Lemma block_inv t m c s s' x : block t m c s = Ok s' x ->
-  exists s2 pay s3 mm ws wsi,
+  exists s2 pay s3 mm ws wsi d,
     payout t (fst (check_disable t c s)) = Ok s2 pay /\
     mint_bb m s2 = (s3, mm) /\
-    kavadist_bb t s3 = Ok s' (ws, wsi) /\
-    x = OBlock (mkBout t (switch_due t s) (if switch_due t s then c else 0) pay mm ws wsi).
+    kavadist_full t s3 = Ok s' (ws, wsi, d) /\
+    x = OBlock (mkBout t (switch_due t s) (if switch_due t s then c else 0) pay mm ws wsi d).
 Proof.
   unfold block. intros H.
   assert (F : snd (check_disable t c s) = switch_due t s).
@@ -166,8 +295,8 @@ Proof.
   destruct (check_disable t c s) as [s1 fired] eqn:E. cbn [fst snd] in *. subst fired.
   destruct (payout t s1) as [s2 pay| |] eqn:P; try discriminate.
   destruct (mint_bb m s2) as [s3 mm] eqn:M.
-  destruct (kavadist_bb t s3) as [s4 [ws wsi]| |] eqn:K; try discriminate.
-  inversion H; subst. exists s2, pay, s3, mm, ws, wsi. auto.
+  destruct (kavadist_full t s3) as [s4 [[ws wsi] d]| |] eqn:K; try discriminate.
+  inversion H; subst. exists s2, pay, s3, mm, ws, wsi, d. auto.
 Qed.
 
 Lemma check_disable_inv t c s : Inv s -> 0 <= c -> Inv (fst (check_disable t c s)).
@@ -175,6 +304,9 @@ Proof.
   intros HI Hc. unfold check_disable. destruct (switch_due t s); cbn [fst]; [|exact HI].
   unfold Inv in *. cbn. lia.
 Qed.
+
+Lemma check_disable_kdbal t c s : kdbal (fst (check_disable t c s)) = kdbal s.
+Proof. unfold check_disable. destruct (switch_due t s); reflexivity. Qed.
 
 Lemma check_disable_last t c s : sr_last (fst (check_disable t c s)) = sr_last s /\
   sr_err (fst (check_disable t c s)) = sr_err s /\ kd_prev (fst (check_disable t c s)) = kd_prev s.
@@ -192,14 +324,28 @@ Proof. destruct o; cbn; tauto. Qed.
 Lemma InvT_weaken now now' s : InvT now s -> now <= now' -> InvT now' s.
 Proof. unfold InvT. intros (H & A & B) L. split; [exact H|split; lia]. Qed.
 
-Definition pay_ctx (s s' : state) (adj : Z) (r : payrec) : Prop :=
-  p_pool r = pool s + adj /\ p_err0 r = sr_err s /\ p_gap r = sr_last s' - sr_last s /\
+Definition pay_ctx (s s' : state) (r : payrec) : Prop :=
+  p_err0 r = sr_err s /\ p_gap r = sr_last s' - sr_last s /\
   p_rate r = c_rate s' /\ sr_last s <> 0.
 
 Ltac fsimpl := cbn [sr_last sr_err c_rate c_upg c_upg_rate pool sink kdbal supply m_min m_max d_tax
-  kd_active kd_prev kd_periods kd_infra set_sr set_bank set_rate set_kd
+  kd_active kd_prev kd_periods kd_infra kd_partners kd_cores users set_sr set_bank set_rate set_kd set_users
   p_gap p_rate p_pool p_err0 p_paid p_err1 fst snd zsum map fold_right flat_map app
-  b_pay b_cons b_fired b_time b_mint b_ws b_wsi length filter] in *.
+  b_pay b_cons b_fired b_time b_mint b_ws b_wsi b_dist length filter] in *.
+
+Lemma payout_frame t s s' p : payout t s = Ok s' p ->
+  c_rate s' = c_rate s /\ c_upg s' = c_upg s /\ c_upg_rate s' = c_upg_rate s /\
+  m_min s' = m_min s /\ m_max s' = m_max s /\ d_tax s' = d_tax s /\
+  kd_active s' = kd_active s /\ kd_prev s' = kd_prev s /\ kd_periods s' = kd_periods s /\
+  kd_infra s' = kd_infra s /\ supply s' = supply s /\ kdbal s' = kdbal s.
+Proof.
+  unfold payout. destruct (sr_last s =? 0).
+  - destruct (valid_sr (sr_err s)); [|discriminate]. intros H; inversion H; subst. cbn. repeat split.
+  - destruct (calc_staking_rewards t (sr_last s) (sr_err s) (c_rate s) (dec_of_int (pool s))) as [paid e'].
+    destruct (paid <? 0); [discriminate|]. destruct (pool s <? paid); [discriminate|].
+    destruct (valid_sr e'); cbn [negb]; [|discriminate].
+    intros H; inversion H; subst. cbn. repeat split.
+Qed.
 
 Lemma block_facts now t m c s s' x :
   InvT now s -> head_ok now (Block t m c) -> block t m c s = Ok s' x ->
@@ -207,20 +353,30 @@ Lemma block_facts now t m c s s' x :
   Forall pay_good (pays [x]) /\
   NS * (PREC * paid_sum [x] + sr_err s') + rem_sum [x] + loss_sum [x] = NS * sr_err s + sched_sum [x] /\
   pool s' = pool s + adj_sum [x] - paid_sum [x] /\
-  Forall (pay_ctx s s' (adj_sum [x])) (pays [x]) /\
+  Forall (pay_ctx s s') (pays [x]) /\
   sr_last s' = t /\ (pays [x] = [] -> sr_last s = 0).
 Proof.
   intros (HI & HL & HK) (Hn & Ht & Hm & Hc) HB.
-  apply block_inv in HB. destruct HB as (s2 & pay & s3 & mm & ws & wsi & P & M & K & ->).
+  apply block_inv in HB. destruct HB as (s2 & pay & s3 & mm & ws & wsi & d & P & M & K & ->).
   pose proof (check_disable_inv t c s HI Hc) as HI1.
   destruct (check_disable_last t c s) as (L1 & L2 & L3).
   assert (Pool1 : pool (fst (check_disable t c s)) = pool s + (if switch_due t s then c else 0)).
   { unfold check_disable. destruct (switch_due t s); cbn [fst pool]; lia. }
+  pose proof (check_disable_kdbal t c s) as KB1.
   set (s1 := fst (check_disable t c s)) in *.
+  assert (KB2 : kdbal s2 = kdbal s1) by (apply payout_frame in P; apply P).
+  unfold mint_bb in M. inversion M; subst s3 mm; clear M.
+  assert (Hkb : 0 <= kdbal s' /\ 0 <= dist_to_pool d).
+  { destruct (kavadist_full_inv _ _ _ _ _ _ K) as (s4 & KBB & GD & DC & _).
+    destruct (kavadist_minted _ _ _ _ _ KBB) as (M1 & M2 & M3 & _).
+    split; [|eapply dist_to_pool_nonneg; exact GD].
+    destruct GD as (_ & _ & _ & _ & _ & _ & _ & G8 & _). apply G8. rewrite DC, M3. fsimpl.
+    destruct HI as (_ & _ & _ & _ & _ & _ & _ & _ & HI9). lia. }
+  destruct Hkb as (Hkb & Hdp).
   rewrite payout_eq in P by (try exact HI1; lia).
-  apply kavadist_frame in K.
+  apply kavadist_full_frame in K.
   destruct K as (K1 & K2 & K3 & K4 & K5 & K6 & K7 & K8 & K9 & K10 & K11 & K12 & K13 & K14 & K15).
-  unfold mint_bb in M. inversion M; subst s3 mm; clear M. fsimpl.
+  fsimpl.
   assert (Hkp : 0 <= kd_prev s' <= t).
   { destruct (kd_active s2) eqn:A.
     - rewrite (K15 eq_refl). lia.
@@ -249,29 +405,15 @@ Proof.
     + discriminate.
 Qed.
 
-Lemma payout_frame t s s' p : payout t s = Ok s' p ->
-  c_rate s' = c_rate s /\ c_upg s' = c_upg s /\ c_upg_rate s' = c_upg_rate s /\
-  m_min s' = m_min s /\ m_max s' = m_max s /\ d_tax s' = d_tax s /\
-  kd_active s' = kd_active s /\ kd_prev s' = kd_prev s /\ kd_periods s' = kd_periods s /\
-  kd_infra s' = kd_infra s /\ supply s' = supply s /\ kdbal s' = kdbal s.
-Proof.
-  unfold payout. destruct (sr_last s =? 0).
-  - destruct (valid_sr (sr_err s)); [|discriminate]. intros H; inversion H; subst. cbn. repeat split.
-  - destruct (calc_staking_rewards t (sr_last s) (sr_err s) (c_rate s) (dec_of_int (pool s))) as [paid e'].
-    destruct (paid <? 0); [discriminate|]. destruct (pool s <? paid); [discriminate|].
-    destruct (valid_sr e'); cbn [negb]; [|discriminate].
-    intros H; inversion H; subst. cbn. repeat split.
-Qed.
-
 (* a block in which the switch is not due leaves the switched parameters alone *)
 Lemma block_nofire t m c s s' x : switch_due t s = false -> block t m c s = Ok s' x ->
   c_rate s' = c_rate s /\ c_upg s' = c_upg s /\ c_upg_rate s' = c_upg_rate s /\
   m_min s' = m_min s /\ m_max s' = m_max s /\ d_tax s' = d_tax s /\ kd_active s' = kd_active s /\
   (exists b, x = OBlock b /\ b_fired b = false /\ b_cons b = 0).
 Proof.
-  intros D HB. apply block_inv in HB. destruct HB as (s2 & pay & s3 & mm & ws & wsi & P & M & K & ->).
+  intros D HB. apply block_inv in HB. destruct HB as (s2 & pay & s3 & mm & ws & wsi & d & P & M & K & ->).
   unfold check_disable in P. rewrite D in *. cbn [fst] in P.
-  apply payout_frame in P. apply kavadist_frame in K. unfold mint_bb in M. inversion M; subst s3 mm; clear M.
+  apply payout_frame in P. apply kavadist_full_frame in K. unfold mint_bb in M. inversion M; subst s3 mm; clear M.
   fsimpl. destruct P as (P1 & P2 & P3 & P4 & P5 & P6 & P7 & _).
   destruct K as (_ & _ & K3 & K4 & K5 & _ & _ & K8 & K9 & K10 & K11 & _).
   repeat split; try congruence. eexists; repeat split.
@@ -282,16 +424,16 @@ Lemma block_fire t m c s s' x : switch_due t s = true -> block t m c s = Ok s' x
   c_rate s' = c_upg_rate s /\ c_upg s' = 0 /\ c_upg_rate s' = c_upg_rate s /\
   m_min s' = 0 /\ m_max s' = 0 /\ d_tax s' = 0 /\ kd_active s' = false /\
   supply s' = supply s /\ kdbal s' = kdbal s /\
-  (exists b, x = OBlock b /\ b_fired b = true /\ b_cons b = c /\ b_mint b = 0 /\ b_ws b = [] /\ b_wsi b = []).
+  (exists b, x = OBlock b /\ b_fired b = true /\ b_cons b = c /\ b_mint b = 0 /\ b_ws b = [] /\ b_wsi b = [] /\ b_dist b = no_dist).
 Proof.
-  intros D HB. apply block_inv in HB. destruct HB as (s2 & pay & s3 & mm & ws & wsi & P & M & K & ->).
+  intros D HB. apply block_inv in HB. destruct HB as (s2 & pay & s3 & mm & ws & wsi & d & P & M & K & ->).
   unfold check_disable in P. rewrite D in *. cbn [fst] in P.
   apply payout_frame in P. cbn [c_rate c_upg c_upg_rate m_min m_max d_tax kd_active kd_prev kd_periods kd_infra supply kdbal] in P.
   destruct P as (P1 & P2 & P3 & P4 & P5 & P6 & P7 & P8 & P9 & P10 & P11 & P12).
   unfold mint_bb in M. rewrite P5 in M. cbn [Z.eqb] in M. inversion M; subst s3 mm; clear M.
-  apply kavadist_frame in K. fsimpl.
+  apply kavadist_full_frame in K. fsimpl.
   destruct K as (_ & _ & K3 & K4 & K5 & _ & _ & K8 & K9 & K10 & K11 & _ & _ & K14 & _).
-  destruct (K14 P7) as (-> & E). inversion E; subst ws wsi. fsimpl.
+  destruct (K14 P7) as (-> & -> & -> & ->). fsimpl.
   repeat split; try congruence; try lia. eexists; repeat split.
 Qed.
 
@@ -326,7 +468,7 @@ Lemma step_facts now s o s' x :
   Forall pay_good (pays [x]) /\
   NS * (PREC * paid_sum [x] + sr_err s') + rem_sum [x] + loss_sum [x] = NS * sr_err s + sched_sum [x] /\
   pool s' = pool s + adj_sum [x] - paid_sum [x] /\
-  Forall (pay_ctx s s' (adj_sum [x])) (pays [x]) /\
+  Forall (pay_ctx s s') (pays [x]) /\
   (pays [x] = [] -> sr_last s' = sr_last s \/ sr_last s = 0).
 Proof.
   intros HT HO HS. destruct o; cbn [step clock] in *.
@@ -348,13 +490,15 @@ Proof.
     unfold paid_sum, rem_sum, loss_sum, sched_sum, adj_sum, pays. fsimpl.
     destruct HT as (HI & HL & HK). unfold InvT, Inv in *.
     repeat split; try constructor; try lia; try (left; reflexivity).
-  - unfold kd_direct in HS. destruct (mint_periods now0 ps 0 prev (supply s)) as [[sup' ws]|]; [|discriminate].
+  - unfold kd_direct in HS. destruct (mint_periods now0 ps 0 prev (supply s)) as [[sup' ws]|] eqn:MP; [|discriminate].
     inversion HS; subst.
+    destruct (mint_periods_minted _ _ _ _ _ _ _ MP) as (MM & MN). pose proof (minted_nonneg _ MN).
     unfold paid_sum, rem_sum, loss_sum, sched_sum, adj_sum, pays. fsimpl.
     destruct HT as (HI & HL & HK). unfold InvT, Inv in *. fsimpl.
     repeat split; try constructor; try lia; try (left; reflexivity).
-  - unfold kd_direct in HS. destruct (mint_periods now0 ps 0 prev (supply s)) as [[sup' ws]|]; [|discriminate].
+  - unfold kd_direct_infra in HS. destruct (mint_periods now0 ps 0 prev (supply s)) as [[sup' ws]|] eqn:MP; [|discriminate].
     inversion HS; subst.
+    destruct (mint_periods_minted _ _ _ _ _ _ _ MP) as (MM & MN). pose proof (minted_nonneg _ MN).
     unfold paid_sum, rem_sum, loss_sum, sched_sum, adj_sum, pays. fsimpl.
     destruct HT as (HI & HL & HK). unfold InvT, Inv in *. fsimpl.
     repeat split; try constructor; try lia; try (left; reflexivity).
@@ -491,7 +635,7 @@ Proof.
   - destruct (calc_staking_rewards now last err rate pool_dec). inversion HS; subst. cbn. repeat split; auto; intros [].
   - unfold kd_direct in HS. destruct (mint_periods now ps 0 prev (supply s)) as [[? ?]|]; [|discriminate].
     inversion HS; subst. cbn. repeat split; auto; try contradiction; try (intros []).
-  - unfold kd_direct in HS. destruct (mint_periods now ps 0 prev (supply s)) as [[? ?]|]; [|discriminate].
+  - unfold kd_direct_infra in HS. destruct (mint_periods now ps 0 prev (supply s)) as [[? ?]|]; [|discriminate].
     inversion HS; subst. cbn. repeat split; auto; try contradiction; try (intros []).
 Qed.
 
@@ -520,7 +664,7 @@ Proof.
       assert (Q : sched_sum [x] = (sr_last s' - sr_last s) * c_rate s /\ sr_last s <= sr_last s' /\ sr_last s' <> 0).
       { unfold sched_sum. destruct (pays [x]) as [|p [|p' l']] eqn:EP.
         - destruct (F eq_refl) as [F1|F1]; [|contradiction]. rewrite F1. cbn. lia.
-        - inversion E as [|? ? E1 _]; subst. destruct E1 as (_ & _ & E3 & E4 & _).
+        - inversion E as [|? ? E1 _]; subst. destruct E1 as (_ & E3 & E4 & _).
           inversion B as [|? ? B1 _]; subst. destruct B1 as (B1 & _).
           unfold zsum. cbn [map fold_right]. rewrite E3, E4, P2. split; [lia|]. split; [lia|].
           destruct HT as ((_ & _ & _ & _ & T5 & _) & _). lia.
@@ -547,11 +691,11 @@ Lemma block_off_supply t m c s s' x : off s -> block t m c s = Ok s' x ->
 Proof.
   intros (O1 & O2 & O3 & O4) HB.
   pose proof (block_nofire _ _ _ _ _ _ (switch_due_unarmed t s O1) HB) as (N1 & N2 & N3 & N4 & N5 & N6 & N7 & (b & -> & Fb & _)).
-  apply block_inv in HB. destruct HB as (s2 & pay & s3 & mm & ws & wsi & P & M & K & E).
+  apply block_inv in HB. destruct HB as (s2 & pay & s3 & mm & ws & wsi & d & P & M & K & E).
   unfold check_disable in P. rewrite (switch_due_unarmed t s O1) in P. cbn [fst] in P.
   apply payout_frame in P. destruct P as (P1 & P2 & P3 & P4 & P5 & P6 & P7 & P8 & P9 & P10 & P11 & P12).
   unfold mint_bb in M. rewrite P5, O3 in M. cbn [Z.eqb] in M. inversion M; subst s3 mm; clear M.
-  apply kavadist_frame in K. destruct K as (_ & _ & _ & _ & _ & _ & _ & _ & _ & _ & _ & _ & _ & K14 & _).
+  apply kavadist_full_frame in K. destruct K as (_ & _ & _ & _ & _ & _ & _ & _ & _ & _ & _ & _ & _ & K14 & _).
   fsimpl. destruct (K14 ltac:(congruence)) as (-> & _). fsimpl.
   unfold off. fsimpl. repeat split; try congruence; try lia.
   unfold fired_count, blocks. cbn [flat_map app filter]. rewrite Fb. reflexivity.
@@ -619,18 +763,6 @@ Proof.
 Qed.
 
 (** * kavadist windows *)
-
-Lemma unix_mono a b : a <= b -> unix a <= unix b.
-Proof. intros Hab. unfold unix. apply Z.div_le_mono; [apply NS_pos|exact Hab]. Qed.
-
-Lemma kd_mint_some infl secs sup a : kd_mint infl secs sup = Some a ->
-  0 <= secs /\ a = kd_amount infl secs sup /\ 0 <= a.
-Proof.
-  unfold kd_mint. destruct (Z.ltb_spec infl 0) as [L1|L1]; cbn [orb]; [discriminate|].
-  destruct (Z.ltb_spec secs 0) as [L2|L2]; [discriminate|].
-  destruct (Z.ltb_spec (kd_amount infl secs sup) 0) as [L3|L3]; [discriminate|].
-  intros HS; inversion HS; subst. repeat split; lia.
-Qed.
 
 (* what is true of every window: inside the block interval (prev0, now], inside
    the period [Start, End], of non-negative length *)
@@ -746,16 +878,19 @@ Lemma block_kd now t m c s s' x :
     supply s' = replay_ws (replay_ws (supply s + b_mint b) (b_ws b)) (b_wsi b).
 Proof.
   intros (HI & HL & HK) (Hn & Ht & Hm & Hc) HB.
-  apply block_inv in HB. destruct HB as (s2 & pay & s3 & mm & ws & wsi & P & M & K & ->).
+  apply block_inv in HB. destruct HB as (s2 & pay & s3 & mm & ws & wsi & d & P & M & K & ->).
   destruct (check_disable_last t c s) as (_ & _ & L3).
   assert (Sup1 : supply (fst (check_disable t c s)) = supply s).
   { unfold check_disable. destruct (switch_due t s); reflexivity. }
   apply payout_frame in P. destruct P as (_ & _ & _ & _ & _ & _ & _ & P8 & _ & _ & P11 & _).
   unfold mint_bb in M. inversion M; subst s3 mm; clear M.
   destruct HI as (_ & _ & _ & _ & _ & _ & HI7 & _).
+  destruct (kavadist_full_inv _ _ _ _ _ _ K) as (s4 & KB & (FR & _) & _). clear K. rename KB into K.
+  assert (FP : kd_prev s' = kd_prev s4) by apply FR.
+  assert (FS : supply s' = supply s4) by apply FR. clear FR.
   apply kavadist_windows in K; fsimpl; [|lia].
   destruct K as (K1 & K2 & K3 & K4 & K5 & K6 & K7 & _).
-  eexists; split; [reflexivity|]. fsimpl. rewrite P8, L3 in *. rewrite P11, Sup1 in K7.
+  eexists; split; [reflexivity|]. fsimpl. rewrite P8, L3 in *. rewrite P11, Sup1 in K7. rewrite FP, FS.
   repeat split; try assumption; lia.
 Qed.
 
@@ -864,5 +999,315 @@ Proof.
     destruct (mint_periods now r (S i) prev (sup + a)) as [[? ?]|]; [discriminate|contradiction].
   - destruct ((p_start p <=? prev) && (now <? p_end p)) eqn:C3; [|apply IH; assumption].
     apply andb_true_iff in C3. destruct C3 as (_ & C3). apply Z.ltb_lt in C3. lia.
+  - lia.
+Qed.
+
+(** * distribution of the infrastructure coins inside a block, and over histories *)
+
+(* the pre-fix function on lists in which no period still lies in the future: the
+   length of the LAST window only (regression) *)
+Lemma last_cons {A} (a : A) l d : last (a :: l) d = last l a.
+Proof.
+  revert a d. induction l as [|b l IH]; intros a d; [reflexivity|].
+  change (last (a :: b :: l) d) with (last (b :: l) d). rewrite (IH b d), (IH b a). reflexivity.
+Qed.
+
+Lemma infra_elapsed_old_last_window now : forall ps i prev sup sup' ws te,
+  mint_periods now ps i prev sup = Some (sup', ws) ->
+  Forall (fun p => p_start p < now) ps ->
+  infra_elapsed_old now ps prev te = last (map w_len ws) te.
+Proof.
+  induction ps as [|p r IH]; intros i prev sup sup' ws te HM HF; cbn [mint_periods infra_elapsed_old] in *.
+  - inversion HM; subst. reflexivity.
+  - inversion HF as [|? ? F1 F2]; subst.
+    destruct (p_end p <? prev); [eapply IH; eassumption|].
+    destruct (kd_case2 now prev p).
+    + destruct (kd_mint (p_infl p) (unix (p_end p) - unix (Z.max prev (p_start p))) sup) as [a|]; [|discriminate].
+      destruct (mint_periods now r (S i) (p_end p) (sup + a)) as [[sup2 ws2]|] eqn:R; [|discriminate].
+      inversion HM; subst; clear HM. cbn [map]. rewrite last_cons. unfold w_len at 2. cbn [w_to w_from].
+      eapply IH; eassumption.
+    + destruct (kd_case3 now prev p).
+      * destruct (kd_mint (p_infl p) (unix now - unix prev) sup) as [a|]; [|discriminate].
+        destruct (mint_periods now r (S i) prev (sup + a)) as [[sup2 ws2]|] eqn:R; [|discriminate].
+        inversion HM; subst; clear HM. cbn [map]. rewrite last_cons. unfold w_len at 2. cbn [w_to w_from].
+        eapply IH; eassumption.
+      * destruct (Z.leb_spec now (p_start p)); [lia|]. eapply IH; eassumption.
+Qed.
+
+Lemma periods_ok_start_end ps : periods_ok ps -> Forall (fun p => p_start p <= p_end p) ps.
+Proof. induction ps as [|p r IH]; cbn [periods_ok]; [constructor|]. intros (A & _ & C). constructor; auto. Qed.
+
+(* payments go to deliverable recipients only, so they split by kind of recipient *)
+Lemma amounts_split n l : Forall (fun p => 0 <= pay_amt p /\ deliverable (pay_to p) n) l ->
+  amounts l = to_pool l + to_kd l + to_users l.
+Proof.
+  induction 1 as [|p l (_ & D) _ IH]; [reflexivity|].
+  rewrite amounts_cons, to_pool_cons, to_kd_cons, to_users_cons, IH.
+  destruct (pay_to p); cbn [deliverable] in D; try contradiction; lia.
+Qed.
+
+Definition ledger (s : state) : Z := pool s + sink s + kdbal s + zsum (users s).
+
+Lemma dist_good_ledger s s' d : dist_good s s' d -> ledger s' = ledger s /\ supply s' = supply s.
+Proof.
+  intros (F & _ & _ & C & P & K & U & _). apply Forall_app in C. destruct C as (C1 & C2).
+  pose proof (amounts_split _ _ C1). pose proof (amounts_split _ _ C2).
+  assert (sink s' = sink s /\ supply s' = supply s) as (S1 & S2) by (split; apply F).
+  unfold ledger, dist_to_pool, dist_paid, dist_to_kd, dist_to_users in *. split; lia.
+Qed.
+
+Lemma payout_ledger t s s' p : payout t s = Ok s' p -> ledger s' = ledger s /\ supply s' = supply s.
+Proof.
+  unfold payout. destruct (sr_last s =? 0).
+  - destruct (valid_sr (sr_err s)); [|discriminate]. intros H; inversion H; subst. unfold ledger, zsum. cbn. split; lia.
+  - destruct (calc_staking_rewards t (sr_last s) (sr_err s) (c_rate s) (dec_of_int (pool s))) as [paid e'].
+    destruct (paid <? 0); [discriminate|]. destruct (pool s <? paid); [discriminate|].
+    destruct (valid_sr e'); cbn [negb]; [|discriminate].
+    intros H; inversion H; subst. unfold ledger, zsum. cbn. split; lia.
+Qed.
+
+(* every coin created in a block is in one of the accounts of the model: the
+   accounts' total moves by exactly the change of the supply *)
+Lemma block_ledger t m c s s' x : block t m c s = Ok s' x -> ledger s' - ledger s = supply s' - supply s.
+Proof.
+  intros HB. apply block_inv in HB. destruct HB as (s2 & pay & s3 & mm & ws & wsi & d & P & M & K & ->).
+  assert (L1 : ledger (fst (check_disable t c s)) = ledger s /\ supply (fst (check_disable t c s)) = supply s).
+  { unfold check_disable. destruct (switch_due t s); unfold ledger, zsum; cbn; split; lia. }
+  destruct (payout_ledger _ _ _ _ P) as (L2 & S2).
+  unfold mint_bb in M. inversion M; subst s3 mm; clear M.
+  destruct (kavadist_full_inv _ _ _ _ _ _ K) as (s4 & KB & GD & _).
+  destruct (dist_good_ledger _ _ _ GD) as (L4 & S4).
+  destruct (kavadist_minted _ _ _ _ _ KB) as (_ & _ & M3 & M4 & _ & _ & M7 & _).
+  apply kavadist_frame in KB. destruct KB as (_ & _ & _ & _ & _ & K6 & K7 & _).
+  unfold ledger in *. fsimpl. rewrite M7 in *. fsimpl. lia.
+Qed.
+
+Definition deposits (l : list out) : Z := zsum (map (fun x => match x with OAdj d => d | _ => 0 end) l).
+
+Lemma step_ledger s o s' x : step s o = Ok s' x ->
+  ledger s' - supply s' = ledger s - supply s + deposits [x] /\
+  kd_partners s' = kd_partners s /\ kd_cores s' = kd_cores s /\ length (users s') = length (users s).
+Proof.
+  intros HS. destruct o; cbn [step] in HS.
+  - pose proof (block_ledger _ _ _ _ _ _ HS) as L.
+    apply block_inv in HS. destruct HS as (s2 & pay & s3 & mm & ws & wsi & d & P & M & K & ->).
+    assert (C1 : kd_partners (fst (check_disable t cons_o s)) = kd_partners s /\ kd_cores (fst (check_disable t cons_o s)) = kd_cores s /\
+                 users (fst (check_disable t cons_o s)) = users s).
+    { unfold check_disable. destruct (switch_due t s); cbn; auto. }
+    assert (C2 : kd_partners s2 = kd_partners (fst (check_disable t cons_o s)) /\ kd_cores s2 = kd_cores (fst (check_disable t cons_o s)) /\
+                 users s2 = users (fst (check_disable t cons_o s))).
+    { revert P. generalize (fst (check_disable t cons_o s)). intros s1. unfold payout. destruct (sr_last s1 =? 0).
+      - destruct (valid_sr (sr_err s1)); [|discriminate]. intros H; inversion H; subst. cbn. auto.
+      - destruct (calc_staking_rewards t (sr_last s1) (sr_err s1) (c_rate s1) (dec_of_int (pool s1))) as [paid e'].
+        destruct (paid <? 0); [discriminate|]. destruct (pool s1 <? paid); [discriminate|].
+        destruct (valid_sr e'); cbn [negb]; [|discriminate]. intros H; inversion H; subst. cbn. auto. }
+    unfold mint_bb in M. inversion M; subst s3 mm; clear M.
+    destruct (kavadist_full_inv _ _ _ _ _ _ K) as (s4 & KB & (FR & _) & _).
+    destruct (kavadist_minted _ _ _ _ _ KB) as (_ & _ & _ & _ & M5 & M6 & M7 & _). fsimpl.
+    unfold frame in FR. decompose [and] FR. clear FR.
+    destruct C1 as (C11 & C12 & C13). destruct C2 as (C21 & C22 & C23).
+    unfold deposits, zsum. cbn [map fold_right]. repeat split; try lia; congruence.
+  - destruct (pool s + d <? 0); [discriminate|]. inversion HS; subst. unfold ledger, deposits, zsum. cbn. repeat split; lia.
+  - destruct (r <? 0); [discriminate|]. inversion HS; subst. unfold ledger, deposits, zsum. cbn. repeat split; lia.
+  - inversion HS; subst. unfold ledger, deposits, zsum. cbn. repeat split; lia.
+  - destruct (calc_staking_rewards now last err rate pool_dec). inversion HS; subst. unfold ledger, deposits, zsum. cbn. repeat split; lia.
+  - unfold kd_direct in HS. destruct (mint_periods now ps 0 prev (supply s)) as [[? ?]|]; [|discriminate].
+    inversion HS; subst. unfold ledger, deposits, zsum. cbn. repeat split; lia.
+  - unfold kd_direct_infra in HS. destruct (mint_periods now ps 0 prev (supply s)) as [[? ?]|]; [|discriminate].
+    inversion HS; subst. unfold ledger, deposits, zsum. cbn. repeat split; lia.
+Qed.
+
+Lemma deposits_cons x l : deposits (x :: l) = deposits [x] + deposits l.
+Proof. unfold deposits, zsum. cbn [map fold_right]. lia. Qed.
+
+(* what is true of the distribution in every block of every history: the coins
+   distributed are exactly the coins minted for the infrastructure periods in
+   that block, they are split without remainder into partner payments, core
+   payments and what stays in the module account, no payment is negative, the
+   total paid out never exceeds what was minted, the partner payments are the
+   configured rates x one elapsed time (between 0 and the whole seconds since
+   the previous block), the core payments the rounded weights of what is left *)
+Definition dist_block_ok (partners : list partner) (cores : list core) (b : bout) : Prop :=
+  let d := b_dist b in
+  d_coins d = minted (b_wsi b) /\ 0 <= d_coins d /\
+  d_coins d = amounts (d_partner d) + amounts (d_core d) + d_rem d /\
+  0 <= d_rem d /\ 0 <= amounts (d_partner d) /\ 0 <= amounts (d_core d) /\
+  amounts (d_partner d) + amounts (d_core d) <= minted (b_wsi b) /\
+  Forall (fun p => 0 <= pay_amt p) (d_partner d ++ d_core d) /\
+  ((d_partner d = [] /\ d_core d = []) \/
+   (d_te d <> 0 /\
+    map pay_to (d_partner d) = map pr_to partners /\ map pay_amt (d_partner d) = partner_sched (d_te d) partners /\
+    map pay_to (d_core d) = map cr_to cores /\
+    map pay_amt (d_core d) = core_sched cores (d_coins d - amounts (d_partner d)))).
+
+Lemma check_disable_cfg t c s :
+  kd_partners (fst (check_disable t c s)) = kd_partners s /\ kd_cores (fst (check_disable t c s)) = kd_cores s /\
+  users (fst (check_disable t c s)) = users s /\ kd_infra (fst (check_disable t c s)) = kd_infra s /\
+  kd_prev (fst (check_disable t c s)) = kd_prev s.
+Proof. unfold check_disable. destruct (switch_due t s); cbn; auto. Qed.
+
+Lemma payout_cfg t s s' p : payout t s = Ok s' p ->
+  kd_partners s' = kd_partners s /\ kd_cores s' = kd_cores s /\ users s' = users s.
+Proof.
+  unfold payout. destruct (sr_last s =? 0).
+  - destruct (valid_sr (sr_err s)); [|discriminate]. intros H; inversion H; subst. cbn. auto.
+  - destruct (calc_staking_rewards t (sr_last s) (sr_err s) (c_rate s) (dec_of_int (pool s))) as [paid e'].
+    destruct (paid <? 0); [discriminate|]. destruct (pool s <? paid); [discriminate|].
+    destruct (valid_sr e'); cbn [negb]; [|discriminate]. intros H; inversion H; subst. cbn. auto.
+Qed.
+
+Lemma block_dist t m c s s' x : block t m c s = Ok s' x ->
+  exists b, x = OBlock b /\ dist_block_ok (kd_partners s) (kd_cores s) b /\
+    d_te (b_dist b) = win_secs (b_wsi b) /\
+    (d_te (b_dist b) = 0 \/ d_te (b_dist b) = infra_elapsed t (kd_infra s) (kd_prev s) 0).
+Proof.
+  intros HB. apply block_inv in HB. destruct HB as (s2 & pay & s3 & mm & ws & wsi & d & P & M & K & ->).
+  eexists; split; [reflexivity|]. unfold dist_block_ok. cbn [b_dist b_wsi].
+  destruct (check_disable_cfg t c s) as (C1 & C2 & _ & C4 & C5).
+  destruct (payout_cfg _ _ _ _ P) as (Q1 & Q2 & _).
+  apply payout_frame in P. destruct P as (_ & _ & _ & _ & _ & _ & _ & P8 & _ & P10 & _).
+  unfold mint_bb in M. inversion M; subst s3 mm; clear M.
+  destruct (kavadist_full_inv _ _ _ _ _ _ K) as (s4 & KB & GD & DC & TE & TE2).
+  destruct (kavadist_minted _ _ _ _ _ KB) as (_ & M2 & _ & _ & M5 & M6 & _). fsimpl.
+  assert (NN : 0 <= d_coins d) by lia.
+  destruct (dist_good_bound _ _ _ GD NN) as (B1 & B2 & B3). unfold dist_paid in B3.
+  destruct GD as (_ & G2 & G3 & G4 & _ & _ & _ & _ & G9 & G10).
+  split; [|split; [exact TE|rewrite P8, P10, C4, C5 in TE2; exact TE2]].
+  split; [exact DC|]. split; [exact NN|]. split; [exact G2|]. split; [auto|]. split; [exact B1|]. split; [exact B2|].
+  split; [lia|].
+  split; [eapply Forall_impl; [|exact G4]; intros p Hp; apply Hp|].
+  destruct (Z.eq_dec (d_te d) 0) as [T0|T0]; [left; destruct (G9 (or_introl T0)) as (A & B & _); auto|].
+  destruct (Z.eq_dec (d_coins d) 0) as [C0|C0]; [left; destruct (G9 (or_intror C0)) as (A & B & _); auto|].
+  right. split; [exact T0|]. destruct (G10 (conj T0 C0)) as (A & B & C & D).
+  rewrite M5, M6, Q1, Q2, C1, C2 in *. auto.
+Qed.
+
+Lemma block_te_bound now t m c s s' x :
+  InvT now s -> head_ok now (Block t m c) -> periods_valid 0 (kd_infra s) ->
+  block t m c s = Ok s' x ->
+  exists b, x = OBlock b /\ 0 <= d_te (b_dist b) <= unix t - unix (kd_prev s).
+Proof.
+  intros (HI & _ & HK) (Hn & _) V HB. destruct (block_dist _ _ _ _ _ _ HB) as (b & -> & _ & _ & TE).
+  exists b. split; [reflexivity|].
+  assert (PT : kd_prev s <= t) by lia. pose proof (unix_mono _ _ PT).
+  destruct TE as [->| ->]; [lia|].
+  eapply infra_elapsed_bounds; try eassumption; lia.
+Qed.
+
+(* the same over whole histories; and the accounts of the model always hold
+   exactly the supply (up to what was deposited into / spent from the pool from outside) *)
+Lemma run_dist ops : forall s sf outs,
+  run_outs s ops = (sf, outs) ->
+  Forall (dist_block_ok (kd_partners s) (kd_cores s)) (blocks outs) /\
+  ledger sf - supply sf = ledger s - supply s + deposits outs /\
+  kd_partners sf = kd_partners s /\ kd_cores sf = kd_cores s.
+Proof.
+  induction ops as [|o r IH]; intros s sf outs HR.
+  - cbn in HR. inversion HR; subst. unfold deposits, zsum. cbn. repeat split; try constructor; lia.
+  - cbn [run_outs] in HR.
+    destruct (step s o) as [s' x| |] eqn:S; try (eapply IH; eassumption).
+    destruct (run_outs s' r) as [sf' l] eqn:R. inversion HR; subst sf' outs; clear HR.
+    destruct (step_ledger _ _ _ _ S) as (L1 & L2 & L3 & _).
+    destruct (IH _ _ _ R) as (I1 & I2 & I3 & I4).
+    rewrite blocks_cons, deposits_cons. rewrite L2, L3 in *.
+    repeat split; try lia; try assumption.
+    apply Forall_app. split; [|exact I1].
+    destruct o; cbn [step] in S;
+      try (unfold blocks; destruct x; cbn [flat_map app]; try constructor;
+           first [ destruct (pool s + d <? 0); discriminate
+                 | destruct (r0 <? 0); discriminate
+                 | discriminate
+                 | destruct (calc_staking_rewards now last err rate pool_dec); discriminate
+                 | unfold kd_direct in S; destruct (mint_periods now ps 0 prev (supply s)) as [[? ?]|]; discriminate
+                 | unfold kd_direct_infra in S; destruct (mint_periods now ps 0 prev (supply s)) as [[? ?]|]; discriminate ]).
+    destruct (block_dist _ _ _ _ _ _ S) as (b & -> & D & _). unfold blocks. cbn [flat_map app]. constructor; [exact D|constructor].
+Qed.
+
+(** * the whole of MintPeriodInflation does not panic when the schedule is valid and
+      non-deflationary, every reward address can be paid, rates and weights are in
+      range, and the partner rewards for the elapsed time are covered by the coins
+      minted in that block -- and it does panic when they are not covered *)
+
+Lemma kavadist_bb_no_panic t s :
+  kd_prev s <= t -> 0 <= supply s -> periods_ok (kd_periods s) -> periods_ok (kd_infra s) ->
+  exists s1 ws wsi, kavadist_bb t s = Ok s1 (ws, wsi).
+Proof.
+  intros PT SU P1 P2. unfold kavadist_bb. destruct (negb (kd_active s)); [do 3 eexists; reflexivity|].
+  destruct (kd_prev s =? 0); [do 3 eexists; reflexivity|].
+  pose proof (mint_periods_no_panic t (kd_periods s) 0 (kd_prev s) (supply s) PT SU P1) as N1.
+  destruct (mint_periods t (kd_periods s) 0 (kd_prev s) (supply s)) as [[sup1 ws1]|] eqn:M1; [|contradiction].
+  destruct (mint_periods_minted _ _ _ _ _ _ _ M1) as (A1 & B1). pose proof (minted_nonneg _ B1).
+  pose proof (mint_periods_no_panic t (kd_infra s) 0 (kd_prev s) sup1 PT ltac:(lia) P2) as N2.
+  destruct (mint_periods t (kd_infra s) 0 (kd_prev s) sup1) as [[sup2 ws2]|] eqn:M2; [|contradiction].
+  do 3 eexists; reflexivity.
+Qed.
+
+Lemma kavadist_full_no_panic t s :
+  0 <= kd_prev s <= t -> 0 <= supply s -> 0 <= kdbal s ->
+  periods_ok (kd_periods s) -> periods_ok (kd_infra s) -> recipients_ok s ->
+  (forall s1 ws wsi, kavadist_bb t s = Ok s1 (ws, wsi) ->
+     infra_elapsed t (kd_infra s) (kd_prev s) 0 * zsum (map pr_rate (kd_partners s)) <= minted wsi) ->
+  exists s' w, kavadist_full t s = Ok s' w.
+Proof.
+  intros PT SU KB P1 P2 (RP & RC) COV.
+  destruct (kavadist_bb_no_panic t s ltac:(lia) SU P1 P2) as (s1 & ws & wsi & K).
+  unfold kavadist_full. rewrite K.
+  destruct (negb (kd_active s) || (kd_prev s =? 0)); [do 2 eexists; reflexivity|].
+  destruct (kavadist_minted _ _ _ _ _ K) as (M1 & M2 & M3 & _ & M5 & M6 & M7 & _).
+  pose proof (infra_elapsed_nonneg t (kd_infra s) (kd_prev s) 0 (periods_ok_start_end _ P2) ltac:(lia) ltac:(lia)) as TB.
+  destruct (distribute_some (infra_elapsed t (kd_infra s) (kd_prev s) 0) (minted wsi) s1) as (s2 & d & D).
+  - unfold recipients_ok. rewrite M5, M6, M7. split; assumption.
+  - exact TB.
+  - exact M2.
+  - lia.
+  - rewrite M5. eapply COV. exact K.
+  - rewrite D. do 2 eexists; reflexivity.
+Qed.
+
+Lemma kavadist_full_shortfall_panics t s s1 ws wsi :
+  kd_active s = true -> kd_prev s <> 0 -> kavadist_bb t s = Ok s1 (ws, wsi) ->
+  infra_elapsed t (kd_infra s) (kd_prev s) 0 <> 0 -> minted wsi <> 0 ->
+  minted wsi < infra_elapsed t (kd_infra s) (kd_prev s) 0 * zsum (map pr_rate (kd_partners s)) ->
+  kavadist_full t s = Panic.
+Proof.
+  intros A P K T C S. unfold kavadist_full. rewrite K, A. cbn [negb orb].
+  destruct (Z.eqb_spec (kd_prev s) 0); [contradiction|].
+  destruct (kavadist_minted _ _ _ _ _ K) as (_ & M2 & _ & _ & M5 & _).
+  rewrite distribute_shortfall; try assumption; [reflexivity|]. rewrite M5. exact S.
+Qed.
+
+(** * the elapsed time against the time inside the periods *)
+
+(* whole seconds of the block interval (prev, now] that lie inside period p / inside any period of the list *)
+Definition inside_one (now prev : Z) (p : period) : Z :=
+  let lo := Z.max prev (p_start p) in let hi := Z.min now (p_end p) in
+  if lo <? hi then unix hi - unix lo else 0.
+Definition inside_secs (now prev : Z) (ps : list period) : Z := zsum (map (inside_one now prev) ps).
+
+(* with a single infrastructure period the elapsed time is exact: whenever
+   something was minted (so that anything is distributed at all), it is the
+   length of the one window, which is the time of the block interval inside the period *)
+Lemma infra_single now p i prev sup sup' ws :
+  prev <= now -> p_start p <= p_end p ->
+  mint_periods now [p] i prev sup = Some (sup', ws) ->
+  ws = [] \/ exists w, ws = [w] /\ infra_elapsed now [p] prev 0 = w_len w /\ w_len w = inside_one now prev p.
+Proof.
+  intros PN SE. cbn [mint_periods infra_elapsed].
+  destruct (p_end p <? prev); [intros H; inversion H; auto|].
+  unfold kd_case2, kd_case3, inside_one.
+  destruct (Z.ltb_spec prev (p_end p)) as [C2a|C2a]; destruct (Z.leb_spec (p_end p) now) as [C2b|C2b]; cbn [andb].
+  - destruct (kd_mint (p_infl p) (unix (p_end p) - unix (Z.max prev (p_start p))) sup) as [a|]; [|discriminate].
+    intros H; inversion H; subst. right. eexists; split; [reflexivity|]. unfold w_len. cbn [w_to w_from].
+    split; [reflexivity|]. cbv zeta. rewrite (Z.min_r now (p_end p)) by lia.
+    destruct (Z.ltb_spec (Z.max prev (p_start p)) (p_end p)) as [L|L]; [reflexivity|].
+    replace (Z.max prev (p_start p)) with (p_end p) by lia. lia.
+  - destruct (Z.leb_spec (p_start p) prev) as [C3a|C3a]; destruct (Z.ltb_spec now (p_end p)) as [C3b|C3b]; cbn [andb];
+      try (intros H; inversion H; auto; fail).
+    destruct (kd_mint (p_infl p) (unix now - unix prev) sup) as [a|]; [|discriminate].
+    intros H; inversion H; subst. right. eexists; split; [reflexivity|]. unfold w_len. cbn [w_to w_from].
+    split; [reflexivity|]. cbv zeta. rewrite (Z.min_l now (p_end p)) by lia. rewrite (Z.max_l prev (p_start p)) by lia.
+    destruct (Z.ltb_spec prev now) as [L|L]; [reflexivity|]. replace prev with now by lia. lia.
+  - destruct (Z.leb_spec (p_start p) prev) as [C3a|C3a]; destruct (Z.ltb_spec now (p_end p)) as [C3b|C3b]; cbn [andb];
+      try lia; intros H; inversion H; auto.
   - lia.
 Qed.
